@@ -1,5 +1,7 @@
 package app
 
+import sv "github.com/Oneledger/protocol/zz_sv"
+
 // C03 — no unauthorised debit: only signers' holdings may decrease
 // (same exploration as C02, different goal).
 
@@ -59,5 +61,17 @@ func SV_C03_stake_withdraw() {
 func SV_C03_delegation() {
 	e := svNewEnv(2, 20, svPreDeleg)
 	raw, signers := svBuildAnyDeleg(e)
+	e.step(raw, signers, true).goalsC03(e.n)
+}
+
+// SV_C03_ons: the seven domain-name kinds; a purchase credits (never debits) the previous owner.
+//
+// sv:bounds as SV_C02_ons with 2 (quick) / 3 (thorough) parties
+// sv:goal as SV_C03_send
+func SV_C03_ons() {
+	svCurrencyLimit = 2
+	pre := &svDomainPre{}
+	e := svNewEnv(2+sv.Tier(), 20, svPreONS(pre))
+	raw, signers := svBuildONS(e, sv.Choice("kind", 7))
 	e.step(raw, signers, true).goalsC03(e.n)
 }
